@@ -147,3 +147,31 @@ Theorem meta_reader_latch_and_close :
 Proof. exact meta_reader_sticky_closed. Qed.
 Print Assumptions meta_reader_latch_and_close.
 End MetaReaderImplD.
+
+(* bzip2.Reader LIFECYCLE at implementation level (Bzip2/ImplLife.v: Close, the latch, Reset; histories of
+   Read/Close/Reset over scripted sources compared PER CALL with the real Reader: WBZLIFE) *)
+From V Require Import Base.Prelude Prefix.ReaderImpl Prefix.DecTable.
+From V Require Bzip2.Impl Bzip2.ImplLife Bzip2.ImplLifeLatch Bzip2.ImplLifeSim Bzip2.ImplLifeInv Bzip2.ImplLifeThms.
+Module BzLife.
+Import Bzip2.Impl Bzip2.ImplLife Bzip2.ImplLifeLatch Bzip2.ImplLifeSim Bzip2.ImplLifeInv Bzip2.ImplLifeThms.
+(* ---- C09 *)
+Theorem bzip2_reader_error_is_sticky : forall st n bs e st',
+  good st -> bz_read st n = ((bs, Some e), st') ->
+  bs = [] /\ z_outOff st' = z_outOff st /\ latched st' e /\
+  (forall ops, Forall Bzip2.ImplLifeThms.is_read ops ->
+     bz_ops st' ops = (map (fun _ => bzlobs_of BkRead [] (Some e) st') ops, st')) /\
+  fst (bz_close st') = Bzip2.ImplLifeLatch.close_ret e /\
+  latched (snd (bz_close st')) (Bzip2.ImplLifeLatch.closed_class e).
+Proof. exact bz_error_sticky. Qed.
+Print Assumptions bzip2_reader_error_is_sticky.
+
+Theorem bzip2_reader_states_are_good : forall data bf fills reads ops,
+  bytes_ok data -> Forall op_ok ops -> good (snd (bz_ops (bz_new data bf fills reads) ops)).
+Proof. exact reachable_good. Qed.
+Print Assumptions bzip2_reader_states_are_good.
+
+Theorem bzip2_reader_sticky_needs_reachability : ~ bz_error_sticky_unconditional_statement.
+Proof. exact bz_error_sticky_unconditional_refuted. Qed.
+Print Assumptions bzip2_reader_sticky_needs_reachability.
+
+End BzLife.
